@@ -6,7 +6,7 @@ from vlib.core import VectorEngine
 from vlib import tlc
 
 # key spelling (token of the spec) -> SCSS text
-KEY_SRC = {"1": "1", "1.0": "1.0", "2": "2", "2.0": "2.0", "1px": "1px", "2px": "2px",
+KEY_SRC = {"1": "1", "1.0": "1.0", "2": "2", "2.0": "2.0", "1px": "1px", "2px": "2px", "1in": "1in", "96px": "96px",
            "red": "red", "#f00": "#f00", "#ff0000": "#ff0000", "blue": "blue", "#00f": "#00f", "#0000ff": "#0000ff",
            "true": "true", "null": "null", "q1": '"1"', "s1": "'1'"}
 for _c in "abcd":
@@ -19,6 +19,8 @@ COLORS = {"red": "c:red", "#f00": "c:red", "#ff0000": "c:red", "blue": "c:blue",
 
 def class_of_text(t):
     """`==` class name (as in Maps!KeyClass) of a key as rsass prints it"""
+    if t == "96px":
+        return "n:1in"          # 96px == 1in (compatible units)
     if re.fullmatch(r"-?\d+(\.\d+)?[a-z%]*", t):
         return "n:" + t
     if len(t) >= 2 and t[0] == t[-1] and t[0] in "\"'":
@@ -80,7 +82,7 @@ class C13(VectorEngine):
     spec_op = "Maps!Run"
     rule = ("The map state machine Maps.tla: TLC checks key uniqueness, get-after-set, the frame conditions of set/remove, the merge order law and that MapEq is an "
             "order-free equivalence in every reachable map state (MC_Maps_C13_inv.cfg, states identified by the map), and emits EVERY sequence of a map literal (<=3 entries) "
-            "followed by two actions out of get/has-key/remove/set/merge/== over keys from representation-variant classes (1 / 1.0 / 1px, \"a\" / a / 'a', red / #f00 / #ff0000). "
+            "followed by two actions out of get/has-key/remove (one key; several keys in orders other than the map's own, respelled, mixed with absent keys)/set/merge/== over keys from representation-variant classes (1 / 1.0 / 1px, \"a\" / a / 'a', red / #f00 / #ff0000, 1in / 96px); a query ends a run. "
             "rsass is stepped through the same sequence in one stylesheet; result and abstract state (key classes in order, values) are compared after every action. "
             "non-trivial = every sequence; distinct = distinct action sequence. Flow B: seeded random sequences of 4-12 actions on maps of <=8 entries validated as a stateful trace by Trace_Maps.tla.")
     assumptions = ["the state is read with inspect(); a key is identified by its `==` class (the spelling kept after an overwrite is not constrained)",
@@ -117,6 +119,8 @@ class C13(VectorEngine):
                 lines.append(f"$r{i}: map.has-key({cur}, {KEY_SRC[op['k']]}); $m{i}: {cur};")
             elif f == "remove":
                 lines.append(f"$m{i}: map.remove({cur}, {KEY_SRC[op['k']]});")
+            elif f == "remove-all":
+                lines.append(f"$m{i}: map.remove({cur}, {', '.join(KEY_SRC[k] for k in op['ks'])});")
             elif f == "set":
                 lines.append(f"$m{i}: map.set({cur}, {KEY_SRC[op['k']]}, {op['v']});")
             elif f == "merge":
@@ -153,7 +157,7 @@ class C13(VectorEngine):
         return "/".join(o["f"] for o in inp["ops"])
 
     # ---- Flow B: random longer sequences, validated as a stateful trace -----------------------------
-    CLASSES = [["1", "1.0"], ["2", "2.0"], ["1px"], ["2px"], ["qa", "a", "sa"], ["qb", "b", "sb"], ["qc", "c", "sc"], ["qd", "d", "sd"],
+    CLASSES = [["1", "1.0"], ["2", "2.0"], ["1px"], ["2px"], ["1in", "96px"], ["qa", "a", "sa"], ["qb", "b", "sb"], ["qc", "c", "sc"], ["qd", "d", "sd"],
                ["q1", "s1"], ["red", "#f00", "#ff0000"], ["blue", "#00f", "#0000ff"], ["true"], ["null"]]
 
     def random_inputs(self, ctx, n):
@@ -172,16 +176,20 @@ class C13(VectorEngine):
         out = []
         for _ in range(n):
             first = some_map(8, distinct=rng.random() > 0.06)
-            ops = [dict(f="literal", k="", v=0, m2=first)]
+            ops = [dict(f="literal", k="", v=0, m2=first, ks=[])]
             if rng.random() < 0.5:
                 perm = [dict(k=rng.choice(next(c for c in self.CLASSES if e["k"] in c)), v=e["v"]) for e in first]
                 rng.shuffle(perm)
                 if rng.random() < 0.25 and perm:
                     perm[0]["v"] = perm[0]["v"] % 9 + 1
-                ops.append(dict(f="eq", k="", v=0, m2=perm))
+                ops.append(dict(f="eq", k="", v=0, m2=perm, ks=[]))
             for _ in range(rng.randint(3, 10)):
-                f = rng.choice(["get", "has-key", "remove", "set", "set", "merge", "merge", "eq"])
-                op = dict(f=f, k="", v=0, m2=[])
+                f = rng.choice(["get", "has-key", "remove", "remove-all", "remove-all", "set", "set", "merge", "merge", "eq"])
+                op = dict(f=f, k="", v=0, m2=[], ks=[])
+                if f == "remove-all":
+                    # several keys, mostly present ones (spellings of the first literal's classes) in random order
+                    pool = [rng.choice(next(c for c in self.CLASSES if e["k"] in c)) for e in first] + [key()]
+                    op["ks"] = [rng.choice(pool) for _ in range(rng.randint(2, 4))]
                 if f in ("get", "has-key", "remove", "set"):
                     op["k"] = key()
                 if f == "set":
